@@ -539,3 +539,70 @@ def check_sym_base_point(facts, rep):
         rep.violation('E7b.K9-axis-base-point', inst, 'the reduced symmetric builder is based at %s instead of the axis point l.base_pt(): tau does not fix that edge in general' % sorted(got[True]), where=b.where())
     else:
         rep.indet('E7b.K9: SymTngBuilder::new passes %s' % got)
+
+
+def check_half_selection(facts, rep):
+    """K10: from the clusters of off-axis crossings one of every mirror pair {G, tau G} is kept - decided by tau itself:
+    a cluster is added to the half iff the mirror image (inv_x) of one of its crossings is not in the half yet. A positional
+    choice ("the first half of the list of clusters") is right only when the clusters happen to be listed G1, G2, .., tau G1,
+    tau G2, ..; listed G1, tau G1, G2, tau G2 the half contains a cluster together with its mirror image and the glued
+    complex is not the diagram's (the build then dies in finalize, or depends on the listing order)."""
+    from symex import apply_closure
+    b0 = facts.bodies.get(B + 'off_axis_crossings')
+    if b0 is None:
+        rep.indet('E7b.K10: off_axis_crossings not found')
+        return
+    cands = [b0]
+    for _ in range(2):
+        for cb in list(cands):
+            for c in cb.calls():
+                t = facts.bodies.get(c.callee or '')
+                if t is not None and t not in cands and t.defp.startswith(B) and t.d.get('vis', 'pub') != 'pub' and t.kind != 'Closure':
+                    cands.append(t)
+
+    def dk(t):
+        return re.sub(r'&mut _\d+', 'IT', re.sub(r'\^_ref__', '^', re.sub(r'#(?:i\d+:)?\d+\.\d+', '', show(t, -1000)))).replace('&', '').replace('*', '')
+    inst = 'SymTngBuilder::off_axis_crossings|a cluster enters the half iff the mirror of one of its crossings is not there yet'
+    verdicts = []
+    for b in cands:
+        if not any((c.callee or c.generic or '').split('::')[-1] == 'group' for c in b.calls()):
+            continue
+        rep.saw(b)
+        try:
+            paths = SymEx(b, havoc_loops=True, max_paths=5000, inline=False).run()
+        except Exception as e:
+            rep.indet('E7b.K10: %s: %s' % (b.defp, e))
+            return
+        for p in paths:
+            # positional selection over the list of clusters
+            if p.end == 'return' and p.ret is not None:
+                s = dk(p.ret)
+                m = re.search(r'(take|skip|step_by|chunks|take_while|skip_while)\((into_iter\()?group\(', s)
+                if m:
+                    verdicts.append(('bad', 'the clusters are chosen by position (%s over the list of clusters: %s)' % (m.group(1), s[:120])))
+            for e in p.calls():
+                if e.name.split('::')[-1] == 'fold' and len(e.args) == 3 and 'group(' in dk(e.args[0]):
+                    ok = guarded = False
+                    for q in apply_closure(e.args[2], [('acc',), ('grp',)], havoc_loops=True) or []:
+                        ext = [c for c in q.calls() if c.name.split('::')[-1] in ('extend', 'append', 'push')]
+                        tests = [(dk(c.term), c.value) for c in q.branches() if dk(c.term).startswith("contains(deref(('acc',)), inv_x(arg1, ") or dk(c.term).startswith("contains(('acc',), inv_x(arg1, ")]
+                        if ext:
+                            if tests and tests[-1][1] == 0:
+                                ok = True
+                            else:
+                                guarded = True
+                    verdicts.append(('ok', 'fold over the clusters, extended under !res.contains(inv_x(x))') if ok and not guarded else ('unknown', 'fold step without the mirror test'))
+        # loop form: for group in u.group() { .. if !res.contains(&tx) { res.extend(group) } }
+        back = [p for p in paths if p.end == 'backedge']
+        for p in back:
+            ext = [c for c in p.calls() if c.name.split('::')[-1] in ('extend', 'append') and c.args and c.args[0][0] == 'mref']
+            if ext and any('group(' in dk(v) for v in p.state.loop_entry.values()):
+                tests = [(dk(c.term), c.value) for c in p.branches() if re.match(r'contains\((deref\()?loop\w+\)?, inv_x\(arg1, ', dk(c.term))]
+                verdicts.append(('ok', 'loop over the clusters, extended under !res.contains(inv_x(x))') if tests and tests[-1][1] == 0 else ('unknown', 'loop extends the half without the mirror test'))
+    bad = [v for k, v in verdicts if k == 'bad']
+    if bad:
+        rep.violation('E7b.K10-half-by-mirror-test', inst, 'off_axis_crossings: %s - for a diagram listed G, tau G, K, tau K the half contains G together with its mirror image' % bad[0], where=b0.where())
+    elif any(k == 'ok' for k, _ in verdicts) and not any(k == 'unknown' for k, _ in verdicts):
+        rep.ok('E7b.K10-half-by-mirror-test', inst, sorted({v for k, v in verdicts if k == 'ok'})[0])
+    else:
+        rep.indet('E7b.K10: selection of the half outside the recognised fragment: %s' % sorted({v for _, v in verdicts})[:2])
